@@ -40,6 +40,18 @@ type dgram struct {
 	Mt    string  `json:"mt"`
 	Seq   string  `json:"seq"`
 	Tlv   string  `json:"tlv"`
+	// SCION
+	Cp  string `json:"cp"`
+	Sc  string `json:"sc"`
+	Da  string `json:"da"`
+	Sa  string `json:"sa"`
+	Ia  string `json:"ia"`
+	Pt  string `json:"pt"`
+	Ext string `json:"ext"`
+	Eo  string `json:"eo"`
+	L4  string `json:"l4"`
+	Ul  string `json:"ul"`
+	Dp  string `json:"dp"`
 }
 
 type field struct {
